@@ -137,11 +137,15 @@ def gen_beta():
     parts.append(f"/-- name of the gravity model selected by `Sgp4Beta.MODEL` -/\ndef gravityModelName : String := \"{model}\"\n")
     ren = py2lean_ext.Rename({"self._init": "i_", "_i": "i_", "self.gravity": "g_"})
     # 2. the orbit setter -> sgp4Init
+    #    cut into: un-Kozai'd mean motion and semi-major axis | the s / q0 adjustment for low perigees | the drag and secular coefficients
     tr = py2lean_ext.XTr()
+    tr.global_names = {"g_" + g for g in gnames}
     body = [ren.visit(st) for st in _body(setter, SKIP_INIT)]
-    txt = tr.block2(body, "[" + ", ".join("i_" + f for f in INIT_FIELDS) + "]")
-    parts.append(f"/-- `Sgp4Beta.orbit` setter: the cached `_init` values in the order {', '.join(INIT_FIELDS)} -/\n"
-                 f"def sgp4Init ({' '.join(ELEMS)} : R) : List R :=\n{py2lean.indent(txt)}\n")
+    fields = ["i_" + f for f in INIT_FIELDS]
+    text, init_info = py2lean_ext.chunks(tr, body, ["rp", "i_θ"], ["sgp4InitKozai", "sgp4InitS", "sgp4InitCoef"], [], "sgp4Init", ELEMS,
+                                         doc=f"`Sgp4Beta.orbit` setter: the cached `_init` values in the order {', '.join(INIT_FIELDS)}",
+                                         keep=fields, compose_result="[" + ", ".join(fields) + "]")
+    parts.append(text)
     # 3. propagate -> pieces
     tr = py2lean_ext.XTr()
 
@@ -154,12 +158,12 @@ def gen_beta():
     tr.loop_names = {id(st): "keplerLoop" for st in stmts if isinstance(st, ast.For)}
     tr.global_names = {"g_" + g for g in gnames}
     inputs = ELEMS + ["tdiff"] + ["i_" + f for f in INIT_FIELDS]
-    text, info = py2lean_ext.chunks(tr, stmts, ["ecosE", "vM"], ["sgp4Mean", "sgp4Short", "sgp4Frame"], ["vector"], "sgp4Prop", inputs,
+    text, info = py2lean_ext.chunks(tr, stmts, ["Mp", "β", "ecosE", "vM"], ["sgp4Secular", "sgp4Elements", "sgp4Kepler", "sgp4Short", "sgp4Frame"], ["vector"], "sgp4Prop", inputs,
                                     doc="`Sgp4Beta.propagate` after the date handling: elements, minutes since epoch, cached init values ↦ [x, y, z, vx, vy, vz] in m, m/s")
     parts.append(text)
     parts.append("/-- setter followed by propagate -/\ndef sgp4Beta (" + " ".join(ELEMS) + " tdiff : R) : List R :=\n  match sgp4Init " + " ".join(ELEMS) + " with\n  | ["
                  + ", ".join("i_" + f for f in INIT_FIELDS) + "] => sgp4Prop " + " ".join(inputs) + "\n  | _ => []\n")
-    return "\n".join(parts), tr.loop_info, info
+    return "\n".join(parts), tr.loop_info, init_info + info
 
 
 def _subst(node, name, new):
@@ -1063,16 +1067,31 @@ def native_cases(ctx, out):
     from beyond.propagators.sgp4beta import Sgp4Beta
     rng = ctx.rng
     reqs, meta = [], []
+    pn = probe("native")
+    seen = {}
+
+    def note(outcomes):
+        tally_branches(out, "branch-native", outcomes)
+        for g, v in outcomes.items():
+            seen.setdefault(g, set()).add(v)
     with eop():
+        n_dir = ctx.n(3, 24) * len(FEATURES)
         k = 0
-        while k < ctx.n(500, 12000):
-            l1, l2, info = gen_tle(rng)
-            if info["n"] < 6.4 and rng.random() < 0.9:
-                continue        # the native model has no deep-space part; a few such inputs are kept (it computes the same formulas on them)
+        while k < n_dir + ctx.n(500, 12000):
+            if k < n_dir:
+                # every branch point / exact field boundary deliberately, thresholds from both sides (gen_directed)
+                l1, l2, info = gen_directed(rng, k)
+                out.tally("native-directed-feature=" + info["feature"].split("+")[0] + f"/side{info['side']}")
+            else:
+                l1, l2, info = gen_tle(rng)
+                if info["n"] < 6.4 and rng.random() < 0.9:
+                    continue        # the native model has no deep-space part; a few such inputs are kept (it computes the same formulas on them)
             k += 1
             orb = Tle(l1 + "\n" + l2).orbit()
             nat = Sgp4Beta()
-            nat.orbit = orb
+            with pn.watch():
+                nat.orbit = orb
+            note(pn.outcomes())
             elems = [float(x) for x in orb] + [float(orb.bstar)]
             init = [float(getattr(nat._init, f)) for f in INIT_FIELDS]
             reqs.append("sgp4init " + " ".join(f2b(x) for x in elems))
@@ -1092,7 +1111,9 @@ def native_cases(ctx, out):
                     if label != "UTC":
                         arg = arg.change_scale(label)
                     tdiff = (arg - orb.date).total_seconds() / 60.0
-                real = [float(x) for x in nat.propagate(arg)]
+                with pn.watch():
+                    real = [float(x) for x in nat.propagate(arg)]
+                note(pn.outcomes())
                 ii = nat._init
                 tempa = 1 - ii.C1 * tdiff - ii.D2 * tdiff ** 2 - ii.D3 * tdiff ** 3 - ii.D4 * tdiff ** 4
                 if not abs(tempa - 1) < 0.2:
@@ -1104,6 +1125,23 @@ def native_cases(ctx, out):
                 meta.append(("prop", real, {"line1": l1, "line2": l2, "offset_us": off, "label": label, "tdiff_min": tdiff}, info))
                 out.count(key=(l1, l2, off), nontrivial=off != 0, kind="native-propagate", sign="t<0" if off < 0 else "t>=0", ecc="e<=1e-4" if elems[2] <= 1e-4 else "e>1e-4",
                           retro=info["inc"] > 90, arg="timedelta" if use_td else "date", deep=info["n"] < 6.4)
+        # what the real code rejects: an orbit that is not in TLE form, a date that is neither a Date nor a timedelta
+        cart = orb.copy(form="cartesian")
+        for what, call in (("setter: non-TLE orbit", lambda: setattr(Sgp4Beta(), "orbit", cart)), ("propagate: float argument", lambda: nat.propagate(12.5))):
+            try:
+                with pn.watch():
+                    call()
+                out.fail("native-contract", f"{what} is accepted by Sgp4Beta (the model has no value for it)", what, observed="returned", expected="TypeError")
+            except TypeError:
+                note(pn.outcomes())
+                out.count(key=what, kind="native-rejects", what=what)
+    # the generator must have driven the real code through both sides of every guard of the source as it is NOW (guards are read
+    # from the AST on every run): a guard added or reworded by a maintainer that the directed generator does not reach from both
+    # sides makes this correspondence incomplete, and the check says so instead of passing
+    for g in pn.labels():
+        if seen.get(g, set()) != {"T", "F"}:
+            out.fail("native-branch-coverage", f"guard `{g}` of sgp4beta.py was only driven to {sorted(seen.get(g, set()))} by the generators: extend FEATURES", g,
+                     observed=sorted(seen.get(g, set())), expected=["F", "T"])
     reqs.append("sgp4beta 1 2 3")
     meta.append(("bad", None, None, None))
     replies = core.Driver().run(reqs)
@@ -1135,8 +1173,91 @@ def native_cases(ctx, out):
             out.sample({"request": req[:60] + "…", "impl": real, "model": model}, limit=4)
 
 
+# ---------------------------------------------------------------- correspondence (3): the hand-written reference spec vs the sgp4 package
+
+REF_FIELDS = ["isimp", "deep", "no_unkozai", "a", "eta", "cc1", "cc3", "cc4", "cc5", "mdot", "argpdot", "nodedot", "omgcof", "xmcof", "nodecf", "t2cof", "xlcof", "aycof",
+              "d2", "d3", "d4", "t3cof", "t4cof", "t5cof"]
+
+
+def angle_close(a, b, atol):
+    d = (a - b) % (2 * math.pi)
+    return min(d, 2 * math.pi - d) <= atol
+
+
+def refspec_cases(ctx, out):
+    """`templates/Sgp4Ref.tpl` (the transcription of the reference's near-Earth path that the theorems equate the native
+    model with) against python-sgp4 itself: every coefficient `sgp4init` stores in the satellite record, the model switches
+    (isimp, deep space), and for objects in the full near-Earth model the mean elements after `sgp4(satrec, t)` and the state"""
+    from sgp4.propagation import sgp4 as core_sgp4
+    rng = ctx.rng
+    reqs, meta = [], []
+    n_dir = ctx.n(3, 24) * len(FEATURES)
+    for k in range(n_dir + ctx.n(300, 6000)):
+        l1, l2, info = gen_directed(rng, k) if k < n_dir else gen_tle(rng)
+        sat = reference(l1, l2)
+        el = [sat.ecco, sat.inclo, sat.nodeo, sat.argpo, sat.mo, sat.no_kozai, sat.bstar]
+        deep, full = sat.method == "d", sat.method == "n" and sat.isimp == 0
+        reqs.append("refinit " + " ".join(f2b(x) for x in (sat.ecco, sat.inclo, sat.argpo, sat.no_kozai, sat.bstar)))
+        exp = {f: getattr(sat, f, None) for f in REF_FIELDS}
+        exp.update(deep=1.0 if deep else 0.0, isimp=1.0 if (sat.isimp and not deep) or (deep and (sat.altp + 1.0) < 220.0 / RE_KM + 1.0) else 0.0)
+        if not full:
+            for f in ("d2", "d3", "d4", "t3cof", "t4cof", "t5cof"):
+                exp[f] = None          # only set by the package in the full model
+        if deep:
+            exp["xlcof"] = exp["aycof"] = None     # overwritten by every call of sgp4() for deep-space objects
+        exp["cc3"] = None              # a local of sgp4init (omgcof = bstar cc3 cos argpo is stored)
+        meta.append(("init", exp, {"line1": l1, "line2": l2}))
+        out.count(key=(l1, l2, "refinit"), kind="refspec-init", model="sdp4" if deep else "sgp4-full" if full else "sgp4-simple", **{"ecco>1e-4": sat.ecco > 1e-4},
+                  perige="<98" if sat.altp * RE_KM < 98 else "<156" if sat.altp * RE_KM < 156 else "<220" if sat.altp * RE_KM < 220 else ">=220",
+                  xlcof_guard=abs(math.cos(sat.inclo) + 1.0) > 1.5e-12)
+        if not full:
+            continue
+        for off in (gen_directed_offsets(rng) if k < n_dir else [gen_offset_us(rng), gen_offset_us(rng)]):
+            t = off / 60e6
+            r, v = core_sgp4(sat, t)
+            if r is False or sat.error != 0:
+                sat.error = 0
+                out.tally("refspec-sgp4=reference-error-skipped")
+                continue
+            tempa = 1 - sat.cc1 * t - sat.d2 * t ** 2 - sat.d3 * t ** 3 - sat.d4 * t ** 4
+            if not abs(tempa - 1) < 0.2:
+                out.tally("refspec-sgp4=drag-polynomial-blown-up-skipped")
+                continue
+            reqs.append("refsgp4 " + " ".join(f2b(x) for x in el + [t]))
+            meta.append(("sgp4", {"am": sat.am, "em": sat.em, "om": sat.om, "Om": sat.Om, "mm": sat.mm, "state": list(r) + list(v)}, {"line1": l1, "line2": l2, "tsince_min": t}))
+            out.count(key=(l1, l2, off, "refsgp4"), nontrivial=off != 0, kind="refspec-sgp4", sign="t<0" if t < 0 else "t>=0", em_floor=sat.em == 1e-6, **{"ecco>1e-4": sat.ecco > 1e-4})
+    replies = core.Driver().run(reqs)
+    for req, (kind, exp, inp), rep in zip(reqs, meta, replies):
+        if not rep or not rep[0].isdigit():
+            out.fail("refspec", "reference spec rejected the request", inp, expected=rep)
+            continue
+        got = [b2f(t) for t in rep.split()]
+        if kind == "init":
+            if len(got) != len(REF_FIELDS):
+                out.fail("refspec-init", "reference spec returned a different number of values", inp, observed=exp, expected=got)
+                continue
+            bad = [f for f, g in zip(REF_FIELDS, got) if exp[f] is not None and not core.close(float(exp[f]), g, rtol=1e-9, atol=1e-300)]
+            if bad:
+                out.fail("refspec-init", f"satellite record fields {bad} of python-sgp4 differ from the reference spec (templates/Sgp4Ref.tpl)", inp,
+                         observed={f: exp[f] for f in bad}, expected={f: g for f, g in zip(REF_FIELDS, got) if f in bad})
+        else:
+            if len(got) != 11:
+                out.fail("refspec-sgp4", "reference spec returned a different number of values", inp, observed=exp, expected=got)
+                continue
+            am, em, argpm, nodem, mm = got[:5]
+            st = got[5:]
+            ok = (core.close(exp["am"], am, rtol=1e-9) and core.close(exp["em"], em, rtol=1e-9, atol=1e-13) and angle_close(exp["om"], argpm, 1e-9)
+                  and angle_close(exp["Om"], nodem, 1e-9) and angle_close(exp["mm"], mm, 1e-9))
+            dp, dv = dist(exp["state"], st)
+            if not (ok and dp <= 1e-9 * norm(st[:3]) and dv <= 1e-9 * norm(st[3:])):
+                out.fail("refspec-sgp4", "mean elements or state of python-sgp4's sgp4() differ from the reference spec (templates/Sgp4Ref.tpl)", inp,
+                         observed=exp, expected={"am": am, "em": em, "argpm": argpm, "nodem": nodem, "mm": mm, "state": st})
+            out.sample({"request": req[:50] + "…", "python-sgp4": exp["state"], "spec": st}, limit=2)
+
+
 def correspondence(ctx):
     out = Outcome()
     wrapper_cases(ctx, out)
     native_cases(ctx, out)
+    refspec_cases(ctx, out)
     return out
